@@ -54,6 +54,7 @@ type c16Result struct {
 	Fail     *c16Err // property failure (strict parse or field mismatch)
 	Jpeg     *c16Jpeg
 	J2k      *c16J2k
+	J2kLoose *c16J2k // lenient split, only when the strict walk failed
 	Escapes  int
 	ScanLen  int
 	Nontriv  bool
@@ -205,6 +206,9 @@ func c16Eval(k *c16Case) *c16Result {
 	case "j2k", "htj2k":
 		j, e := c16ParseJ2K(res.Out)
 		res.J2k, res.Fail = j, e
+		if e != nil {
+			res.J2kLoose = c16LenientJ2K(res.Out)
+		}
 		if e == nil {
 			res.Fail = c16CheckJ2KFields(k, j)
 			for _, tp := range j.Parts {
@@ -522,6 +526,7 @@ func c16RLECases(c *hx.Ctx) []*c16Case {
 func c16Run(c *hx.Ctx) {
 	c.Rule = "a stream counts as non-trivial when its entropy-coded part (JPEG scan / JPEG 2000 tile-part bodies / RLE segments) has at least 8 bytes"
 	c16Segments(c)
+	c16GuardLines(c)
 
 	cases := c16JpegCases(c)
 	cases = append(cases, c16J2KCases(c)...)
@@ -577,9 +582,14 @@ func c16Run(c *hx.Ctx) {
 		if res.Fail != nil {
 			c.Fail(hx.Failure{Class: "c16-" + k.Enc + "-" + res.Fail.Kind, What: res.Fail.Detail, Input: k.input(),
 				Expected: "one strictly parseable codestream declaring the arguments", Actual: c16Head(res.Out)})
-			continue
+			// the correspondence line is still produced when the stream can be cut: a wrong header byte / Psot
+			// must ALSO show up as a disagreement between the header model and the real writer
+			if res.Jpeg == nil && res.J2k == nil && res.J2kLoose == nil {
+				continue
+			}
+		} else {
+			c.Sample(map[string]any{"case": k.key(), "bytes": len(res.Out), "ff_in_scan": res.Escapes})
 		}
-		c.Sample(map[string]any{"case": k.key(), "bytes": len(res.Out), "ff_in_scan": res.Escapes})
 		// correspondence: header bytes of the real stream vs the model, on a bounded number of streams per encoder
 		lim := 14
 		if c.Thorough() {
@@ -596,6 +606,7 @@ func c16Run(c *hx.Ctx) {
 	}
 	c16StrictLines(c, cases, results)
 	c16SelfTest(c, cases, results)
+	c16Pieces(c, cases, results)
 }
 
 // c16SelfTest: the JPEG 2000 walker must reject streams whose framing is off by a little; a mutant that is
@@ -698,6 +709,9 @@ func c16B(b bool) int {
 // are passed as arguments, read back from the stream; everything else is recomputed by the model.
 func c16HeaderLine(c *hx.Ctx, k *c16Case, res *c16Result) bool {
 	j := res.Jpeg
+	if j == nil && k.Enc != "j2k" && k.Enc != "htj2k" {
+		return false
+	}
 	switch k.Enc {
 	case "jll":
 		c.Case(fmt.Sprintf("c16-hdr-jll %d %d %d %d %d %s", k.W, k.H, k.C, k.Depth, j.Ss, c16Table(&j.DHT[0])), "ok "+hx.Hex(res.Out[:j.HdrEnd]))
@@ -738,6 +752,9 @@ func c16HeaderLine(c *hx.Ctx, k *c16Case, res *c16Result) bool {
 		c.Case(fmt.Sprintf("c16-hdr-ext12 %d %d %s %s %s", k.W, k.H, c16Ints(xs), c16Table(&j.DHT[0]), c16Table(&j.DHT[1])), "ok "+hx.Hex(res.Out[:j.HdrEnd]))
 	case "j2k", "htj2k":
 		p, s := k.J2K, res.J2k
+		if s == nil {
+			s = res.J2kLoose
+		}
 		end := s.MainEnd
 		if s.HasTLM {
 			end = s.TLMStart
@@ -773,6 +790,85 @@ func c16HeaderLine(c *hx.Ctx, k *c16Case, res *c16Result) bool {
 		return false
 	}
 	return true
+}
+
+// c16GuardLines: the argument guards in front of the header writers (the header models start with them):
+// every JPEG-family Encode on arguments around each limit, with a pixel buffer that is always long enough, so
+// that the only possible reason for an error is the guard itself. Real outcome `err` / `ok <header>` vs model.
+func c16GuardLines(c *hx.Ctx) {
+	tab := "1,0,0,0,0,0,0,0,0,0,0,0,0,0,0,0 00"
+	buf := func(w, h, comps, depth int) []byte {
+		n := 1
+		for _, v := range []int{w, h, comps, (depth + 7) / 8} {
+			if v > 0 {
+				n *= v
+			}
+		}
+		if n > 1<<24 {
+			n = 1 << 24
+		}
+		return make([]byte, n+16)
+	}
+	line := func(op string, f func() ([]byte, error)) {
+		var out []byte
+		var err error
+		p, _ := hx.Guard(func() { out, err = f() })
+		real := "err"
+		switch {
+		case p:
+			real = "panic"
+		case err == nil:
+			j, e := c16ParseJPEG(out)
+			if e != nil {
+				real = "ok unparseable " + c16Head(out)
+			} else {
+				real = "ok " + hx.Hex(out[:j.HdrEnd])
+			}
+		}
+		if real != "err" {
+			// an accepted argument tuple: the table argument of the op is not the real one, compare outcome class only
+			c.Count("guard:accepted")
+			return
+		}
+		c.Count("guard:rejected")
+		c.Case(op, real)
+	}
+	type wh struct{ w, h int }
+	dims := []wh{{65536, 1}, {1, 65536}, {65536, 65536}, {0, 1}, {1, 0}, {-1, 1}, {1, -3}, {70000, 2}}
+	for _, d := range dims {
+		d := d
+		for _, comps := range []int{1, 3} {
+			comps := comps
+			line(fmt.Sprintf("c16-hdr-jll %d %d %d 8 1 %s", d.w, d.h, comps, tab), func() ([]byte, error) { return jll.Encode(buf(d.w, d.h, comps, 8), d.w, d.h, comps, 8, 1) })
+			line(fmt.Sprintf("c16-hdr-sv1 %d %d %d 16 %s", d.w, d.h, comps, tab), func() ([]byte, error) { return lossless14sv1.Encode(buf(d.w, d.h, comps, 16), d.w, d.h, comps, 16) })
+			line(fmt.Sprintf("c16-hdr-jls %d %d %d 8", d.w, d.h, comps), func() ([]byte, error) { return jls.Encode(buf(d.w, d.h, comps, 8), d.w, d.h, comps, 8) })
+			line(fmt.Sprintf("c16-hdr-near %d %d %d 12 3", d.w, d.h, comps), func() ([]byte, error) { return nearlossless.Encode(buf(d.w, d.h, comps, 12), d.w, d.h, comps, 12, 3) })
+			line(fmt.Sprintf("c16-guard-base %d %d %d", d.w, d.h, comps), func() ([]byte, error) { return baseline.Encode(buf(d.w, d.h, comps, 8), d.w, d.h, comps, 75) })
+		}
+		line(fmt.Sprintf("c16-guard-ext12 %d %d", d.w, d.h), func() ([]byte, error) { return extended.Encode(buf(d.w, d.h, 1, 12), d.w, d.h, 1, 12, 75) })
+	}
+	for _, comps := range []int{0, 2, 4, -1} {
+		comps := comps
+		line(fmt.Sprintf("c16-hdr-jll 4 4 %d 8 1 %s", max(comps, 0), tab), func() ([]byte, error) { return jll.Encode(buf(4, 4, comps, 8), 4, 4, comps, 8, 1) })
+		line(fmt.Sprintf("c16-hdr-jls 4 4 %d 8", max(comps, 0)), func() ([]byte, error) { return jls.Encode(buf(4, 4, comps, 8), 4, 4, comps, 8) })
+		line(fmt.Sprintf("c16-hdr-near 4 4 %d 8 1", max(comps, 0)), func() ([]byte, error) { return nearlossless.Encode(buf(4, 4, comps, 8), 4, 4, comps, 8, 1) })
+		line(fmt.Sprintf("c16-guard-base 4 4 %d", max(comps, 0)), func() ([]byte, error) { return baseline.Encode(buf(4, 4, comps, 8), 4, 4, comps, 75) })
+	}
+	for _, depth := range []int{1, 17, 0, -2, 32} {
+		depth := depth
+		line(fmt.Sprintf("c16-hdr-jll 4 4 1 %d 1 %s", depth, tab), func() ([]byte, error) { return jll.Encode(buf(4, 4, 1, 16), 4, 4, 1, depth, 1) })
+		line(fmt.Sprintf("c16-hdr-sv1 4 4 1 %d %s", depth, tab), func() ([]byte, error) { return lossless14sv1.Encode(buf(4, 4, 1, 16), 4, 4, 1, depth) })
+		line(fmt.Sprintf("c16-hdr-jls 4 4 1 %d", depth), func() ([]byte, error) { return jls.Encode(buf(4, 4, 1, 16), 4, 4, 1, depth) })
+		line(fmt.Sprintf("c16-hdr-near 4 4 1 %d 0", depth), func() ([]byte, error) { return nearlossless.Encode(buf(4, 4, 1, 16), 4, 4, 1, depth, 0) })
+	}
+	for _, pred := range []int{-1, 8, 100} {
+		pred := pred
+		line(fmt.Sprintf("c16-hdr-jll 4 4 1 8 %d %s", pred, tab), func() ([]byte, error) { return jll.Encode(buf(4, 4, 1, 8), 4, 4, 1, 8, pred) })
+	}
+	for _, near := range []int{-1, 256, 1000} {
+		near := near
+		line(fmt.Sprintf("c16-hdr-near 4 4 1 8 %d", near), func() ([]byte, error) { return nearlossless.Encode(buf(4, 4, 1, 8), 4, 4, 1, 8, near) })
+	}
 }
 
 // c16Segments: the exported segment writers on arbitrary arguments (incl. lengths that do not fit 16 bits,
